@@ -121,6 +121,73 @@ Definition localham1d (d : nat) (L : Z) (cyc : bool) (H2 : dict) (dflt2 : option
   (h1 : list (Z * mat)) (dflt1 : option mat) : option dict :=
   localham d (ham1d_fill L cyc H2 dflt2) h1 dflt1.
 
+(* LocalHam2D / LocalHam3D.__init__: the default term is stored under every DIRECTED bond
+   (coo_a, coo_b) that gen_2d_bonds / gen_3d_bonds yields and that is not yet present in either
+   orientation.  Sites (i, j) / (i, j, k) are raveled row-major (i * Ly + j, ...): the order of
+   the raveled numbers is the lexicographic order of the tuples Python compares. *)
+Definition fill_default (bs : list key) (H2 : dict) (X : mat) : dict :=
+  fold_left (fun acc b => if mem_key b acc || mem_key (snd b, fst b) acc then acc else acc ++ [(b, X)]) bs H2.
+
+Definition wrap_coo (w L : Z) (cyc : bool) : option Z :=
+  if (0 <=? w) && (w <? L) then Some w else if cyc then Some (w mod L) else None.
+
+Definition zrange (n : Z) : list Z := map Z.of_nat (seq 0 (Z.to_nat n)).
+
+(* gen_2d_bonds(Lx, Ly, steppers=[(i, j+1), (i+1, j)], cyclic=(cx, cy)) *)
+Definition bonds2d (Lx Ly : Z) (cx cy : bool) : list key :=
+  flat_map (fun i => flat_map (fun j =>
+    flat_map (fun st : Z * Z =>
+      match wrap_coo (fst st) Lx cx, wrap_coo (snd st) Ly cy with
+      | Some i2, Some j2 => [(i * Ly + j, i2 * Ly + j2)]
+      | _, _ => []
+      end) [(i, j + 1); (i + 1, j)]) (zrange Ly)) (zrange Lx).
+
+(* gen_3d_bonds(..., steppers=[(i, j, k+1), (i, j+1, k), (i+1, j, k)], cyclic=(cx, cy, cz)) *)
+Definition bonds3d (Lx Ly Lz : Z) (cx cy cz : bool) : list key :=
+  flat_map (fun i => flat_map (fun j => flat_map (fun k =>
+    flat_map (fun st : Z * Z * Z =>
+      match wrap_coo (fst (fst st)) Lx cx, wrap_coo (snd (fst st)) Ly cy, wrap_coo (snd st) Lz cz with
+      | Some i2, Some j2, Some k2 => [((i * Ly + j) * Lz + k, (i2 * Ly + j2) * Lz + k2)]
+      | _, _, _ => []
+      end) [(i, j, k + 1); (i, j + 1, k); (i + 1, j, k)]) (zrange Lz)) (zrange Ly)) (zrange Lx).
+
+Definition with_default (bs : list key) (H2 : dict) (dflt2 : option mat) : dict :=
+  match dflt2 with None => H2 | Some X => fill_default bs H2 X end.
+Definition localham2d (d : nat) (Lx Ly : Z) (cx cy : bool) (H2 : dict) (dflt2 : option mat)
+  (h1 : list (Z * mat)) (dflt1 : option mat) : option dict :=
+  localham d (with_default (bonds2d Lx Ly cx cy) H2 dflt2) h1 dflt1.
+Definition localham3d (d : nat) (Lx Ly Lz : Z) (cx cy cz : bool) (H2 : dict) (dflt2 : option mat)
+  (h1 : list (Z * mat)) (dflt1 : option mat) : option dict :=
+  localham d (with_default (bonds3d Lx Ly Lz cx cy cz) H2 dflt2) h1 dflt1.
+
+(* ---------------------------------------------------------------- *)
+(* TEBDSweepMixin.sweep / evolve (arbitrary geometry TEBD, simple update, 2D TEBD): which term is
+   exponentiated with which exponent.  An entry (w, x) stands for the gate expm(-x * h_w). *)
+Definition sweep_order (ordering : list key) (reflect : bool) : list key :=
+  if reflect then ordering ++ rev ordering else ordering.       (* tuple(ordering) + tuple(reversed(ordering)) *)
+Definition sweep_gates (ordering : list key) (reflect : bool) (tau : Qc) : list (key * Qc) :=
+  map (fun w => (w, if reflect then (tau / qtwo)%Qc else tau)) (sweep_order ordering reflect).
+
+(* evolve(steps, tau): zip(range(steps), chain(tau, repeat(tau[-1]))) for a sequence, repeat(tau) for a
+   scalar (a one element list here); `orderings` = the ordering each sweep used (a callable ordering is
+   consulted once per sweep) *)
+Definition evolve_taus (steps : nat) (taus : list Qc) : list Qc :=
+  firstn steps (taus ++ repeat (last taus 0%Qc) steps).
+Fixpoint evolve_gates (orderings : list (list key)) (reflect : bool) (taus : list Qc) : list (key * Qc) :=
+  match orderings, taus with
+  | o :: os, t :: ts => sweep_gates o reflect t ++ evolve_gates os reflect ts
+  | _, _ => []
+  end.
+
+(* total exponent a term receives / how often a pair occurs in an ordering *)
+Fixpoint term_exponent (w : key) (g : list (key * Qc)) : Qc :=
+  match g with
+  | [] => 0%Qc
+  | (w', x) :: r => ((if key_eqb w w' then x else 0) + term_exponent w r)%Qc
+  end.
+Fixpoint kcount (w : key) (o : list key) : nat :=
+  match o with [] => O | w' :: r => ((if key_eqb w w' then 1 else 0) + kcount w r)%nat end.
+
 (* get_gate(where) = terms[tuple(sorted(where))] *)
 Definition get_gate (terms : dict) (w : key) : option mat :=
   lookup (if fst w <=? snd w then w else (snd w, fst w)) terms.
